@@ -15,6 +15,7 @@ pub fn child_main(args: &[String]) -> i32 {
     let mut rep = Report::new(&prop, &tier, seed, "exploration");
     match prop.as_str() {
         "C05BG" => crate::c05::run_background(&mut rep),
+        "C08BG" => crate::c08::run_background(&mut rep),
         p => {
             if !crate::run_prop(p, &mut rep) {
                 return 2;
